@@ -23,6 +23,7 @@ class Cfg:
         self.max_params = 3
         self.max_arr = 3
         self.neg_const_mul = False  # literal negative multipliers (known finding region)
+        self.assign_focus = 0.0  # profile "assignorder": nested arrays assigned through input-dependent indices
         for k, v in kw.items():
             assert hasattr(self, k), k
             setattr(self, k, v)
@@ -53,6 +54,8 @@ class Gen:
         self.fn_depth = 0
         self.budget = 0
         self.no_shadow = set()
+        self._pat_used = set()
+        self._shadow_p = 0.12
         self.no_assign = []  # variables that are being assigned by an enclosing statement
 
     # ---------------------------------------------------------------- helpers
@@ -113,7 +116,12 @@ class Gen:
         if k == "scalar":
             return self.rand_scalar()
         if k == "arr":
-            return TArr(self.rand_type(d - 1), self.rng.randint(1, c.max_arr))
+            et = self.rand_type(d - 1)
+            n = self.rng.randint(1, c.max_arr)
+            if c.max_arr >= 3 and d >= 2 and size_of(et) <= 24 and self.chance(0.12):
+                # lengths that are not powers of two make the mux trees of indexed reads / writes lopsided
+                n = self.pick([3, 5, 6, 7])
+            return TArr(et, n)
         if k == "tup":
             return TTup([self.rand_type(d - 1) for _ in range(self.rng.randint(2, 3))])
         if k == "struct":
@@ -218,6 +226,8 @@ class Gen:
     def index_expr(self, n, d):
         """an index into an array of n elements: mostly in range, sometimes input-dependent"""
         r = self.rng.random()
+        if self.cfg.assign_focus and d > 0 and self.chance(self.cfg.assign_focus):
+            r = 0.9
         if r < 0.5 or d <= 0:
             return Lit(USIZE, self.rng.randrange(n), suffix=self.chance(0.5))
         if r < 0.6:
@@ -483,6 +493,14 @@ class Gen:
             if isinstance(ty, TEnum) and len(ty.variants) == 1:
                 vn, fts = ty.variants[0]
                 return PEnum(ty, vn, [self.irrefutable_pattern(t, d - 1) for t in fts])
+        if self.chance(self._shadow_p):
+            # a pattern variable that shadows a visible name (its scope ends with the arm / loop body / block);
+            # one name is used at most once per pattern (the set is reset when the finished pattern is declared)
+            vs = [v[0] for v in self.vars_of(lambda t, m: True) if v[0] != "_" and v[0] not in self.no_shadow and v[0] not in self._pat_used]
+            if vs:
+                name = self.pick(vs)
+                self._pat_used.add(name)
+                return PVar(name)
         return PVar(self.fresh("b")) if self.chance(0.85) else PVar("_")
 
     def arm_patterns(self, ty):
@@ -524,19 +542,23 @@ class Gen:
         return ps
 
     def declare_pattern(self, pat, ty):
+        self._pat_used = set()
+        self._declare_pattern(pat, ty)
+
+    def _declare_pattern(self, pat, ty):
         if isinstance(pat, PVar):
             if pat.name != "_":
                 self.declare(pat.name, ty, False)
         elif isinstance(pat, PTup):
             for p, t in zip(pat.ps, ty.elems):
-                self.declare_pattern(p, t)
+                self._declare_pattern(p, t)
         elif isinstance(pat, PStruct):
             for f, p in pat.fields:
-                self.declare_pattern(p, ty.field_ty(f))
+                self._declare_pattern(p, ty.field_ty(f))
         elif isinstance(pat, PEnum):
             fts = ty.variants[ty.variant_index(pat.variant)][1]
             for p, t in zip(pat.ps, fts):
-                self.declare_pattern(p, t)
+                self._declare_pattern(p, t)
 
     # ---------------------------------------------------------------- statements
     def block(self, ty, d, min_stmts=0, own_scope=True):
@@ -608,15 +630,32 @@ class Gen:
     def s_assign_to(self, n, t, d):
         accs = []
         cur = t
+        force_op = False
         while True:
-            if isinstance(cur, (TBool, TInt, TEnum)) or self.chance(0.3):
+            if isinstance(cur, (TBool, TInt, TEnum)) or self.chance(0.3 * (1 - self.cfg.assign_focus)):
                 break
             if is_arr(cur):
                 if cur.n == 0:
                     break
                 idx = self.index_expr(cur.n, d)
+                if any(k == "idx" and not isinstance(i, Lit) for k, i in accs) and self.chance(max(self.cfg.assign_focus, 0.2 + 0.4 * min(1.0, self.cfg.panic_bias))):
+                    # a later index expression that can fail itself, after an earlier index that can be out of bounds:
+                    # the earlier bounds check comes first
+                    idx = Cast(self.e_arith(U8, 1), USIZE)
+                fo = self.cfg.assign_focus
+                uvars = [v for v in self.vars_of(lambda t, m: m and t is USIZE) if v[0] not in self.no_assign]
+                prev = [i for k, i in accs if k == "idx" and isinstance(i, Var) and any(i.name == u[0] for u in uvars)]
+                if prev and self.chance(max(0.6 * fo, 0.15)):
+                    # a later index expression that assigns to a variable used as an earlier index: the earlier index
+                    # has already been evaluated
+                    pv = prev[-1]
+                    idx = Block([Assign(pv.name, pv.ty, [], Lit(USIZE, 1), "+")], idx)
+                    force_op = True
+                elif uvars and is_arr(cur.elem) and self.chance(max(0.4 * fo, 0.08)):
+                    un, ut, _ = self.pick(uvars)
+                    idx = Var(un, ut)
                 muts = [v for v in self.vars_of(lambda t, m: m and isinstance(t, TInt)) if v[0] not in self.no_assign]
-                if muts and self.chance(0.15):
+                if muts and not isinstance(idx, (Var, Block)) and self.chance(0.15):
                     # index expression with an effect: `a[{ counter += 1; i }] op= v` must run it once
                     cn, ct, _ = self.pick(muts)
                     idx = Block([Assign(cn, ct, [], Lit(ct, 1), "+")], idx)
@@ -635,7 +674,12 @@ class Gen:
             else:
                 break
         op = None
-        if isinstance(cur, TInt) and self.chance(0.4):
+        dyn_idx = any(k == "idx" and not isinstance(i, Lit) for k, i in accs)
+        if dyn_idx and not force_op and isinstance(cur, TInt) and self.chance(max(0.6 * self.cfg.assign_focus, 0.15 + 0.35 * min(1.0, self.cfg.panic_bias))):
+            # an index that may be out of bounds AND a value that may fail in the same statement: which failure is
+            # reported is fixed by the evaluation order
+            return Assign(n, t, accs, self.e_arith(cur, max(d, 1)), None)
+        if isinstance(cur, TInt) and (force_op or self.chance(0.4)):
             op = self.pick(["+", "-", "^", "&", "|", "<<", ">>"] + (["*", "/", "%"] if cur.bits <= self.cfg.muldiv_bits else []))
         elif isinstance(cur, TBool) and self.chance(0.3):
             op = self.pick(["^", "&", "|"])
@@ -699,7 +743,11 @@ class Gen:
             b = ArrLit([TupLit([Lit(kty, k), self.expr(pb, d - 1)]) for k in kb], TArr(tb, nb))
         finally:
             self.no_struct -= 1
-        pat = self.irrefutable_pattern(TTup([ta, tb]))
+        self._shadow_p = 0.35  # join-loop patterns that shadow variables of the enclosing blocks
+        try:
+            pat = self.irrefutable_pattern(TTup([ta, tb]))
+        finally:
+            self._shadow_p = 0.12
         self.scopes.append({})
         self.declare_pattern(pat, TTup([ta, tb]))
         body = [st for st in (self.stmt(d - 1) for _ in range(self.rng.randint(1, 2))) if st is not None]
@@ -711,7 +759,7 @@ class Gen:
     def s_for(self, d):
         if d <= 0:
             return self.s_assign(d)
-        if self.chance(0.2):
+        if self.chance(0.3):
             return self.s_forjoin(d)
         ety = self.rand_type(1)
         n = self.rng.randint(1, self.cfg.max_arr)
@@ -760,6 +808,20 @@ class Gen:
         ret = self.rand_type(2)
         self.scopes.append({})
         stmts = []
+        if c.assign_focus:
+            # a nested array (or an array of tuples holding arrays) to assign into
+            it = self.rand_int_type()
+            inner = TArr(it, self.rng.randint(2, 3))
+            et = inner if self.chance(0.6) else TTup([self.rand_int_type(), inner])
+            aty = TArr(et, self.pick([2, 3, 3, 5]))
+            nm = self.fresh("arr")
+            stmts.append(LetMut(nm, self.construct(aty, 1)))
+            self.declare(nm, aty, True)
+            self.no_shadow.add(nm)
+            kn = self.fresh("k")
+            # a small mutable index variable (0 or 1, input-dependent half of the time)
+            stmts.append(LetMut(kn, Bin("&", self.expr(USIZE, 1), Lit(USIZE, 1)) if self.chance(0.5) else Lit(USIZE, self.rng.randint(0, 1))))
+            self.declare(kn, USIZE, True)
         for _ in range(self.rng.randint(1, c.stmts + 1)):
             st = self.stmt(c.depth)
             if st is not None:
